@@ -58,8 +58,10 @@ def gen_extra_config(rng, calls):
     calls = {k: list(v) for k, v in calls.items()}
     files = {}
     kinds = {"Array": [("Self", "SELF"), ("Unify", "UNIFY"), ("OptionalUnify", "OPTU"), ("Argument", "ARG1"), ("Int|String", ("Integer", "String")), (["Float", "NilClass"], ("Float", "NilClass")),
-                       ("[Int]", "ARR:Integer"), ("Symbol", "Symbol"), ("StringArray", "ARR:String")],
-             "Hash": [("Self", "SELF"), ("KeyValueArray", "KVARR"), ("Unify", "HUNIFY"), ("Argument", "ARG1"), ("Bool", "Bool")],
+                       ("[Int]", "ARR:Integer"), ("Symbol", "Symbol"), ("StringArray", "ARR:String"),
+                       (["Unify", "NilClass"], "UNIFY+NilClass"), (["Symbol", "Unify"], "Symbol+UNIFY")],
+             "Hash": [("Self", "SELF"), ("KeyValueArray", "KVARR"), ("Unify", "HUNIFY"), ("Argument", "ARG1"), ("Bool", "Bool"),
+                      (["Unify", "NilClass"], "HUNIFY+NilClass"), (["Float", "Unify"], "Float+HUNIFY")],
              "String": [("Self", "String"), ("Argument", "ARG1"), ("Int|NilClass", ("Integer", "NilClass")), ("[String]", "ARR:String")]}
     for cls, ks in kinds.items():
         ms = []
@@ -254,6 +256,19 @@ class Gen:
                 rt = union(list(ret))
             elif ret.startswith("ARR:"):
                 rt = Arr([ret[4:]])
+            elif "+" in ret:
+                # a declared union with a computed member (like Hash#delete: [Unify, NilClass]): the member is resolved, the result is one flat union
+                parts = []
+                for part in ret.split("+"):
+                    if part == "UNIFY":
+                        parts += t.elems
+                    elif part == "HUNIFY":
+                        parts += list(t.kv.values())
+                    else:
+                        parts.append(part)
+                if (isinstance(t, Arr) and not t.elems) or (not isinstance(t, Arr) and not t.kv):
+                    return
+                rt = union(parts)
             elif ret == "UNIFY":
                 rt = union(t.elems) if t.elems else "untyped"
             elif ret == "HUNIFY":
